@@ -387,9 +387,11 @@ fn main() {
                     cc.evs = evs;
                     res.oracle_violations.push(OracleViolation { case_id: i as i64, what, class, replay: case_json(&cc) });
                 }
-                let id = w.push(coq_case(c, &o1.enc));
-                if res.case_index.len() < 4000 {
-                    res.case_index.insert(id.to_string(), case_json(c));
+                if !a.oracle_only() {
+                    let id = w.push(coq_case(c, &o1.enc));
+                    if res.case_index.len() < 4000 {
+                        res.case_index.insert(id.to_string(), case_json(c));
+                    }
                 }
                 if nontrivial(c) && distinct.add(&format!("{:?}", c)) {}
             }
